@@ -496,7 +496,9 @@ impl<'a, T: std::fmt::Debug> WaitingState<'a, T> {
                 )
             }
             WaitingConfig::Chord(config) => {
-                if let Some((ret, action, cpq)) = self.handle_chord(config, queued, action_queue) {
+                if let Some((ret, action, cpq)) =
+                    self.handle_chord(config, queued, action_queue, false)
+                {
                     self.tap = action;
                     pq = Some(cpq);
                     (Some(ret), None)
@@ -627,8 +629,11 @@ impl<'a, T: std::fmt::Debug> WaitingState<'a, T> {
         config: &'a ChordsGroup<'a, T>,
         queued: &mut Queue,
         action_queue: &mut ActionQueue<'a, T>,
+        forced: bool,
     ) -> Option<(WaitingAction, &'a Action<'a, T>, PressedQueue)> {
-        if queued.len() as u8 == self.prev_queue_len && self.timeout.saturating_sub(self.delay) > 0
+        if !forced
+            && queued.len() as u8 == self.prev_queue_len
+            && self.timeout.saturating_sub(self.delay) > 0
         {
             // Fast path: nothing has changed since last tick and we haven't timed out yet.
             return None;
@@ -673,8 +678,8 @@ impl<'a, T: std::fmt::Debug> WaitingState<'a, T> {
                 }
             })
             .and_then(|active| {
-                if self.timeout.saturating_sub(self.delay) == 0 {
-                    Err(active) // timeout expired, abort
+                if forced || self.timeout.saturating_sub(self.delay) == 0 {
+                    Err(active) // timeout expired (or decision forced), abort
                 } else {
                     Ok(active)
                 }
@@ -1140,6 +1145,28 @@ impl<'a, const C: usize, const R: usize, T: 'a + Copy + std::fmt::Debug> Layout<
         self.states.iter().filter_map(State::keycode)
     }
     fn waiting_into_hold(&mut self, idx: i8) -> CustomEvent<'a, T> {
+        // A pending chord has no hold action. A forced decision (full event queue) ends it the
+        // way its timeout does, so that the key that started it is not lost. The queued events
+        // are newer than the event that is being pushed out of the queue; they stay queued, as
+        // they do for a forced tap-hold.
+        if idx < 0 {
+            if let Some(w) = self.waiting.as_mut() {
+                if let WaitingConfig::Chord(config) = w.config {
+                    return match w.handle_chord(
+                        config,
+                        &mut Queue::new(),
+                        &mut self.action_queue,
+                        true,
+                    ) {
+                        Some((WaitingAction::Tap, action, pq)) => {
+                            w.tap = action;
+                            self.waiting_into_tap(Some(pq), -1)
+                        }
+                        _ => self.drop_waiting(),
+                    };
+                }
+            }
+        }
         let waiting = if idx < 0 {
             self.waiting.as_ref()
         } else {
